@@ -92,6 +92,9 @@ pub fn shift_l(left: &BigInt, right: &BigInt, field: &BigInt) -> Result<BigInt, 
     let top = field / &two;
     if right <= &top {
         let usize_repr = right.to_usize().ok_or(ArithmeticError::DivisionByZero)?;
+        if usize_repr >= bit_representation(field).1.len() {
+            return Err(ArithmeticError::BitOverFlowInShift);
+        }
         let value = modulus(&((left * &num_traits::pow(two, usize_repr)) & &mask(field)), field);
         Ok(value)
     } else {
@@ -103,6 +106,9 @@ pub fn shift_r(left: &BigInt, right: &BigInt, field: &BigInt) -> Result<BigInt, 
     let top = field / &two;
     if right <= &top {
         let usize_repr = right.to_usize().ok_or(ArithmeticError::DivisionByZero)?;
+        if usize_repr >= bit_representation(field).1.len() {
+            return Err(ArithmeticError::BitOverFlowInShift);
+        }
         let value = left / &num_traits::pow(two, usize_repr);
         Ok(value)
     } else {
